@@ -24,6 +24,7 @@ import (
 	"sort"
 	"strings"
 
+	"github.com/zmap/zcrypto/ct"
 	ztls "github.com/zmap/zcrypto/tls"
 
 	"verifharness/internal/netx"
@@ -371,23 +372,28 @@ func cmpServerHello(l *ztls.ServerHello, sh *serverHello, eeALPN string, tls13 b
 			k.fail("mismatch:server_hello.scts:count", "log has %d SCTs, wire %d", len(l.SignedCertificateTimestamps), len(sh.SCTs))
 		} else {
 			for i, s := range l.SignedCertificateTimestamps {
-				if !bytes.Equal(s.Raw, sh.SCTs[i]) {
-					k.fail("mismatch:server_hello.scts.raw", "SCT %d: log %s wire %s", i, hx(s.Raw), hx(sh.SCTs[i]))
+				w := sh.SCTs[i]
+				if !bytes.Equal(s.Raw, w) {
+					k.fail("mismatch:server_hello.scts.raw", "SCT %d: log %s wire %s", i, hx(s.Raw), hx(w))
 				}
-				if s.Parsed != nil {
-					w := sh.SCTs[i]
-					// RFC 6962 3.2: version(1) log_id(32) timestamp(8)
-					if len(w) >= 41 {
-						if !bytes.Equal(s.Parsed.LogID[:], w[1:33]) {
-							k.fail("mismatch:server_hello.scts.parsed.log_id", "SCT %d: parsed log id %x wire %x", i, s.Parsed.LogID[:], w[1:33])
-						}
-						var ts uint64
-						for _, b := range w[33:41] {
-							ts = ts<<8 | uint64(b)
-						}
-						if s.Parsed.Timestamp != ts {
-							k.fail("mismatch:server_hello.scts.parsed.timestamp", "SCT %d: parsed %d wire %d", i, s.Parsed.Timestamp, ts)
-						}
+				// per entry, two-sided: the parsed form must be the independent RFC 6962 parse of THIS entry's
+				// bytes, and an entry that does not deserialise must have no parsed form
+				ref, class := parseSCT(w)
+				k.count("sct_entry:" + class)
+				switch class {
+				case "valid":
+					if s.Parsed == nil {
+						k.fail("mismatch:server_hello.scts.parsed:missing", "SCT %d deserialises (RFC 6962 3.2), the log has no parsed form", i)
+					} else {
+						cmpSCT(k, i, s.Parsed, ref)
+					}
+				case "malformed":
+					if s.Parsed != nil {
+						k.fail("mismatch:server_hello.scts.parsed:not-on-wire", "SCT %d (%s) does not deserialise, the log shows a parsed SCT (log id %x, timestamp %d)", i, hx(w), s.Parsed.LogID[:], s.Parsed.Timestamp)
+					}
+				case "trailing": // a complete SCT followed by extra bytes: rejecting it or parsing the prefix are both defensible
+					if s.Parsed != nil {
+						cmpSCT(k, i, s.Parsed, ref)
 					}
 				}
 			}
@@ -1216,4 +1222,61 @@ func checkObs(s spec, o *hsObs, serverKey crypto.PrivateKey) *obsResult {
 		res.Summary["server_error"] = o.SErr.Error()
 	}
 	return res
+}
+
+// refSCT is the independent decoding of an RFC 6962 3.2 SignedCertificateTimestamp (v1).
+type refSCT struct {
+	Version    byte
+	LogID      []byte
+	Timestamp  uint64
+	Extensions []byte
+	HashAlg    byte
+	SigAlg     byte
+	Signature  []byte
+}
+
+// parseSCT classifies the bytes of one SerializedSCT: "valid" (a complete v1 SCT and nothing else),
+// "trailing" (a complete v1 SCT followed by extra bytes), "malformed" (anything else).
+func parseSCT(b []byte) (*refSCT, string) {
+	r := &rd{b: b}
+	t := &refSCT{Version: byte(r.u8())}
+	if r.bad || t.Version != 0 {
+		return nil, "malformed"
+	}
+	t.LogID = r.take(32)
+	for _, x := range r.take(8) {
+		t.Timestamp = t.Timestamp<<8 | uint64(x)
+	}
+	t.Extensions = r.vec16()
+	t.HashAlg = byte(r.u8())
+	t.SigAlg = byte(r.u8())
+	t.Signature = r.vec16()
+	if r.bad {
+		return nil, "malformed"
+	}
+	if !r.empty() {
+		return t, "trailing"
+	}
+	return t, "valid"
+}
+
+func cmpSCT(k *chk, i int, p *ct.SignedCertificateTimestamp, ref *refSCT) {
+	if byte(p.SCTVersion) != ref.Version {
+		k.fail("mismatch:server_hello.scts.parsed.version", "SCT %d: parsed %d wire %d", i, p.SCTVersion, ref.Version)
+	}
+	if !bytes.Equal(p.LogID[:], ref.LogID) {
+		k.fail("mismatch:server_hello.scts.parsed.log_id", "SCT %d: parsed log id %x wire %x", i, p.LogID[:], ref.LogID)
+	}
+	if p.Timestamp != ref.Timestamp {
+		k.fail("mismatch:server_hello.scts.parsed.timestamp", "SCT %d: parsed %d wire %d", i, p.Timestamp, ref.Timestamp)
+	}
+	if !bytes.Equal([]byte(p.Extensions), ref.Extensions) {
+		k.fail("mismatch:server_hello.scts.parsed.extensions", "SCT %d: parsed %x wire %x", i, []byte(p.Extensions), ref.Extensions)
+	}
+	if byte(p.Signature.HashAlgorithm) != ref.HashAlg || byte(p.Signature.SignatureAlgorithm) != ref.SigAlg {
+		k.fail("mismatch:server_hello.scts.parsed.signature.algorithm", "SCT %d: parsed %d/%d wire %d/%d", i, p.Signature.HashAlgorithm, p.Signature.SignatureAlgorithm, ref.HashAlg, ref.SigAlg)
+	}
+	if !bytes.Equal(p.Signature.Signature, ref.Signature) {
+		k.fail("mismatch:server_hello.scts.parsed.signature", "SCT %d: parsed %s wire %s", i, hx(p.Signature.Signature), hx(ref.Signature))
+	}
 }
